@@ -645,6 +645,57 @@ fn compound(a: &J, b: &J, op: &str, expanded: bool) -> J {
     obs.last_stmt().and_then(|ev| var_json(ev, "vr")).unwrap_or(json!({"t":"missing"}))
 }
 
+/// The same cells through the interpreter: `put <expr> into vr` run as a program (binary operators, `not`), and truthiness as
+/// the branch an `if` takes.
+fn prog_value(a: &J, b: &J, build: impl FnOnce(u32) -> Expression) -> J {
+    let mut p = Prog::new();
+    p.setup("va", a);
+    p.setup("vb", b);
+    p.push(|l| put("vr", build(l), l));
+    let obs = exec::run(&program(vec![p.stmts]), &RunCfg::default());
+    if obs.is_panic() {
+        return json!({"t":"panic"});
+    }
+    if !obs.is_ok() {
+        return json!({"t":"err"});
+    }
+    obs.last_stmt().and_then(|ev| var_json(ev, "vr")).unwrap_or(json!({"t":"missing"}))
+}
+fn prog_truthy(a: &J) -> &'static str {
+    let mut p = Prog::new();
+    p.setup("va", a);
+    p.push(|l| put("vr", prim(strlit("unset", l)), l));
+    p.push(|l| put("vw", prim(strlit("unset", l)), l));
+    let l = p.next_line();
+    p.stmts.push(Statement::If(If {
+        condition: prim(var("va", l)),
+        then_block: block(vec![put("vr", prim(strlit("T", l + 1)), l + 1)], l + 1),
+        else_block: Some(block(vec![put("vr", prim(strlit("F", l + 2)), l + 2)], l + 2)),
+    }));
+    // a loop sees the same truthiness as a branch
+    let l2 = l + 3;
+    p.stmts.push(Statement::While(While {
+        condition: prim(var("va", l2)),
+        block: block(vec![put("vw", prim(strlit("T", l2 + 1)), l2 + 1), Statement::Break(Break(rng(l2 + 2)))], l2 + 1),
+    }));
+    p.line = l2 + 3;
+    let obs = exec::run(&program(vec![p.stmts]), &RunCfg::default());
+    if !obs.is_ok() {
+        return "E";
+    }
+    let ev = match obs.last_stmt() {
+        Some(e) => e,
+        None => return "E",
+    };
+    let branch = var_json(ev, "vr").and_then(|v| v["s"].as_str().map(|s| s.to_string())).unwrap_or_default();
+    let looped = var_json(ev, "vw").map_or(false, |v| v["s"] == "T");
+    match (branch.as_str(), looped) {
+        ("T", true) => "T",
+        ("F", false) => "F",
+        _ => "X", // the branch and the loop disagree
+    }
+}
+
 pub fn record_lawtable(args: &[String]) -> i32 {
     use std::io::Write;
     let mut input = None;
@@ -699,8 +750,17 @@ pub fn record_lawtable(args: &[String]) -> i32 {
                 c2.insert(op.to_string(), compound(ja, jb, op, true));
             }
         }
+        let ptable = |x: &J, y: &J| -> J {
+            let mut m = serde_json::Map::new();
+            for op in ops {
+                m.insert(op.to_string(), prog_value(x, y, |l| bin(binop(op), prim(var("va", l)), vec![prim(var("vb", l))])));
+            }
+            J::Object(m)
+        };
         writeln!(f, "{}", json!({"a": ja, "b": jb, "ab": table(&a, &b), "ba": table(&b, &a), "ta": t(&a), "tb": t(&b),
-                                   "na": jv::from_val(&Val::Boolean(!a.is_truthy())), "inc1": inc1, "inc2": inc2, "c1": c1, "c2": c2})).unwrap();
+                                   "na": jv::from_val(&Val::Boolean(!a.is_truthy())), "inc1": inc1, "inc2": inc2, "c1": c1, "c2": c2,
+                                   "pab": ptable(ja, jb), "pba": ptable(jb, ja), "pta": prog_truthy(ja), "ptb": prog_truthy(jb),
+                                   "pna": prog_value(ja, jb, |l| un(UnaryOperator::Not, prim(var("va", l))))})).unwrap();
     }
     0
 }
